@@ -229,13 +229,19 @@ def repo_lib(extra_flags=(), tag='std'):
     lib = os.path.join(d, 'libdispenso.a')
     with Lock('repolib-' + hh):
         if os.path.exists(lib):
+            try:
+                os.utime(d, None)      # mark as in use
+            except OSError:
+                pass
             return lib
-        # drop older caches (disk is limited)
+        # drop older caches (disk is limited) -- but never one that a concurrent run (another source root through VERIF_REPO, or other
+        # compiler flags) may be linking against right now: only those not used for an hour, and the 4 most recent ones always stay
         par = os.path.join(BUILD, 'repolib')
         if os.path.isdir(par):
             olds = sorted((os.path.getmtime(os.path.join(par, x)), x) for x in os.listdir(par))
-            for _, x in olds[:-3]:
-                shutil.rmtree(os.path.join(par, x), ignore_errors=True)
+            for mt, x in olds[:-4]:
+                if time.time() - mt > 3600:
+                    shutil.rmtree(os.path.join(par, x), ignore_errors=True)
         os.makedirs(d, exist_ok=True)
         srcs = sorted(glob.glob(os.path.join(REPO, 'dispenso', '*.cpp')) + glob.glob(os.path.join(REPO, 'dispenso', 'detail', '*.cpp')))
         cmds = []
